@@ -49,7 +49,10 @@ def schTaxaBase : Schema := { ndim := 2, taxaAx := [0], vrntAx := [], traitAx :=
 /-- DensePhasedGenotypeMatrix as it was before fix 74ad0b65 (integer positions reach numpy.insert as scalars) -/
 def schPhasedPre : Schema := { schPhased with scalarInsertRaw := true }
 /-- DenseSquareTaxaTraitMatrix -/
-def schSqTrait : Schema := { ndim := 3, taxaAx := [0, 1], vrntAx := [], traitAx := [2], pureDropsOther := true }
+def schSqTrait : Schema := { ndim := 3, taxaAx := [0, 1], vrntAx := [], traitAx := [2] }
+/-- DenseSquareTaxaTraitMatrix as it was before the repair of D27 (non-mutating methods inherited from the single-bundle
+    parents: the other bundle's labels were not handed to the new object) -/
+def schSqTraitPre : Schema := { schSqTrait with pureDropsOther := true }
 
 def leI (a b : Int) : Bool := decide (a ≤ b)
 
@@ -100,8 +103,9 @@ theorem nonvacuous_schGeno_simple : schGeno.Simple := by
 /-! ## 1. Labels stay attached — single operations -/
 
 /-
-FULL STATEMENT (false of the as-is model, see `pure_op_drops_other_labels_counterexample` (D27); not proved for
-bundles that govern two axes, i.e. the square classes):
+FULL STATEMENT (stated here for bundles that govern ONE axis; the bundles that govern two axes, i.e. the square classes,
+are `square_unary_op_attached_partial` below; before the repair of D27 it was false of DenseSquareTaxaTraitMatrix, see
+`pure_op_drops_other_labels_prerepair_counterexample`):
   for every class schema `sch`, every labelled bundle `k`, every consistent state `s` and every unary
   structural operation (select / delete / remove / reorder / sort / group / ungroup) that succeeds with
   result `s'`, every labelled cell of `s'` is a labelled cell of `s`.
@@ -183,8 +187,7 @@ example : consistentOK schSquare sSquare = true := by decide
 example : (step leI schSquare 0 false (.group .taxa) sSquare).toOption.isSome = true := by decide +kernel
 
 /-
-FULL STATEMENT (false for DenseSquareTaxaTraitMatrix (D27) and for the single-axis insert / incorp / concat of the
-square classes (D14)):
+FULL STATEMENT (false for the single-axis insert / incorp / concat of the square classes (D14)):
   the same for adjoin / append / insert / incorp / concat with every position form of numpy.insert, on every class.
 The partial theorem is for `sch.Good` classes (every bundle governs one axis or the two leading axes; non-mutating
 methods pass every label array on) and excludes exactly the D14 operations (`Op.SquareOK`).  For the block-diagonal
@@ -264,32 +267,34 @@ example :
      | .error _ => false) = true := by
   decide +kernel
 
-/-- **D17b (the code as it is).**  A 0-d ndarray position (`insert_taxa(numpy.array(1), block)`) is neither `int` nor
-    `numpy.integer`: the wrapping of fix 74ad0b65 does not apply, the position reaches numpy.insert as a scalar and the
-    result again contains a cell that neither the receiver nor the operand block has. -/
-theorem insert_zero_dim_array_position_counterexample :
-    (match insertZeroDimK schPhased .taxa 1 opTaxa sPhased with
+/-- **D17b (repaired; what the code did before).**  A 0-d ndarray position (`insert_taxa(numpy.array(1), block)`) is
+    neither `int` nor `numpy.integer`: the wrapping of fix 74ad0b65 did not apply, the position reached numpy.insert as a
+    scalar and the result again contained a cell that neither the receiver nor the operand block has. -/
+theorem insert_zero_dim_array_position_prerepair_counterexample :
+    (match insertZeroDimKPrerepair schPhased .taxa 1 opTaxa sPhased with
      | .ok s' => (lcells schPhased s').all (fun c =>
          (lcells schPhased sPhased).contains c ||
          (lcells schPhased (operandState sPhased .taxa opTaxa)).contains c)
      | .error _ => true) = false := by
   decide +kernel
 
-/-
-FULL STATEMENT (false of the as-is model for a non-leading axis, see `insert_zero_dim_array_position_counterexample`):
-  `insert_<k>(numpy.array(i), values, …)` / `incorp_<k>(numpy.array(i), values, …)` keep labels attached on every class.
-Hypothesis of the partial theorem: the bundle governs the LEADING axis (`sch.axes k = [0]`: taxa of the unphased
-genotype, taxa-trait, breeding-value and base classes) — there numpy's scalar rule is the plain block insert.
--/
+/-- **A 0-d ndarray insert position is an integer position** (full, the code as it is now: the wrap tests
+    `isinstance(obj, (int, numpy.integer)) or (isinstance(obj, numpy.ndarray) and obj.ndim == 0)`): on every class, every
+    axis and both forms the call is the integer call, so `insert_any_position_form_attached_partial`,
+    `operand_op_attached_partial` and the history theorems cover it. -/
+theorem insert_zero_dim_position_is_integer_position {α lab : Type} (sch : Schema) (k : Kind) (i : Int)
+    (v : Operand α lab) (s : St α lab) :
+    insertZeroDimK sch k i v s = insertK sch k (.int i) v s ∧ incorpZeroDimK sch k i v s = incorpK sch k (.int i) v s :=
+  ⟨rfl, rfl⟩
 
-/-- **A 0-d ndarray insert position on a leading axis keeps labels attached** (both forms, any sizes). -/
-theorem insert_zero_dim_leading_axis_attached_partial {α lab : Type} (sch : Schema) (hwf : sch.WF) (k : Kind)
-    (hax : sch.axes k = [0]) (mutating : Bool) (i : Int) (v : Operand α lab) (s s' : St α lab)
-    (hd : sch.pureDropsOther = false) (hcs : consistentOK sch s = true)
-    (hcv : consistentOK sch (operandState s k v) = true) (hlen : (s.bundle k).cols.length = v.cols.length)
-    (h : (if mutating then incorpZeroDimK sch k i v s else insertZeroDimK sch k i v s) = .ok s')
-    (c : LCell α lab) (hc : IsLCell sch s' c) : IsLCell sch s c ∨ IsLCell sch (operandState s k v) c :=
-  insertZeroDim_leading_attached sch hwf k hax mutating i v s s' hd hcs hcv hlen h c hc
+/-- the witness of D17b on the code as it is now: every labelled cell of the result is one of the receiver or the block -/
+example :
+    (match insertZeroDimK schPhased .taxa 1 opTaxa sPhased with
+     | .ok s' => (lcells schPhased s').all (fun c =>
+         (lcells schPhased sPhased).contains c ||
+         (lcells schPhased (operandState sPhased .taxa opTaxa)).contains c)
+     | .error _ => false) = true := by
+  decide +kernel
 
 /-- a 2 × 2 unphased matrix and one taxon to insert -/
 def sGeno22 : St Int Int :=
@@ -297,26 +302,29 @@ def sGeno22 : St Int Int :=
     vrnt := noCols 9, trait := noCols 1 }
 def opGenoRow : Operand Int Int := { mat := [[[50], [51]]], cols := [some [150], some [3]] }
 
-/-- … while on a leading axis (unphased matrix: taxa axis 0) the scalar rule is the block insert: same result as the
-    wrapped integer -/
-example : insertZeroDimK schGeno .taxa 1 opGenoRow sGeno22 = insertK schGeno .taxa (.int 1) opGenoRow sGeno22 := by
+/-- on a leading axis (unphased matrix: taxa axis 0) numpy's scalar rule is the block insert: even the pre-repair form
+    gave the result of the wrapped integer — the defect needed a non-leading axis -/
+example : insertZeroDimKPrerepair schGeno .taxa 1 opGenoRow sGeno22 = insertK schGeno .taxa (.int 1) opGenoRow sGeno22 := by
   decide +kernel
 example : schGeno.axes .taxa = [0] := rfl
 example : consistentOK schGeno sGeno22 = true ∧ consistentOK schGeno (operandState sGeno22 .taxa opGenoRow) = true := by
   decide +kernel
 
-/-- **D27 (was D18).**  DenseSquareTaxaTraitMatrix inherits `select_taxa` from its taxa-only parent: the returned
-    object has lost the trait names. -/
-theorem pure_op_drops_other_labels_counterexample :
-    ((selectK schSqTrait .taxa [1, 0] sSqTrait).toOption.map (fun s' => (s'.bundle .trait).cols))
+/-- **D27 (repaired; what the code did before).**  DenseSquareTaxaTraitMatrix inherited `select_taxa` from its
+    taxa-only parent: the returned object had lost the trait names. -/
+theorem pure_op_drops_other_labels_prerepair_counterexample :
+    ((selectK schSqTraitPre .taxa [1, 0] sSqTrait).toOption.map (fun s' => (s'.bundle .trait).cols))
       = some [none] := by
   decide +kernel
+
+/-- the same call on the code as it is now (the ten overrides hand the other bundle's arrays on) keeps the trait names -/
+example : ((selectK schSqTrait .taxa [1, 0] sSqTrait).toOption.map (fun s' => (s'.bundle .trait).cols))
+    = some (sSqTrait.bundle .trait).cols := by decide +kernel
 
 /-! ## 2. Histories -/
 
 /-
-FULL STATEMENT (false for DenseSquareTaxaTraitMatrix (D27) and the single-axis insert / incorp / concat of the
-square classes (D14)):
+FULL STATEMENT (false for the single-axis insert / incorp / concat of the square classes (D14)):
   for every class, every initial state and every finite list of structural operations with valid arguments,
   every state of the history is shape-consistent and every labelled cell of the final state is a labelled
   cell of the initial state or of an operand block.
@@ -514,15 +522,16 @@ theorem mutating_eq_pure_partial {α lab : Type} (sch : Schema) (hd : sch.pureDr
 
 example : (adjoinK schPhased .taxa 0 opTaxa sPhased).toOption.isSome = true := by decide
 
-/-- **The hypothesis `pureDropsOther = false` of `mutating_eq_pure_partial` is necessary (D27).**  On
-    DenseSquareTaxaTraitMatrix `adjoin_taxa` (inherited from the taxa-only parent) returns an object without trait
-    names while `append_taxa` with the same arguments keeps them: the two states differ. -/
+/-- **D27 (repaired; what the code did before): `pureDropsOther = false` — a fact of every class as the code is now — is
+    what `mutating_eq_pure_partial` needs.**  Before the repair `adjoin_taxa` of DenseSquareTaxaTraitMatrix (inherited
+    from the taxa-only parent) returned an object without trait names while `append_taxa` with the same arguments kept
+    them: the two states differed. -/
 def opSqTrait : Operand Int Int := { mat := [[[70, 71]]], cols := [some [170], some [5]] }
 
-theorem mutating_eq_pure_drops_other_counterexample :
-    ((adjoinK schSqTrait .taxa (-99 : Int) opSqTrait sSqTrait).toOption.map
+theorem mutating_eq_pure_drops_other_prerepair_counterexample :
+    ((adjoinK schSqTraitPre .taxa (-99 : Int) opSqTrait sSqTrait).toOption.map
         (fun s' => (s'.bundle .trait).cols),
-     (appendK schSqTrait .taxa (-99 : Int) opSqTrait sSqTrait).toOption.map
+     (appendK schSqTraitPre .taxa (-99 : Int) opSqTrait sSqTrait).toOption.map
         (fun s' => (s'.bundle .trait).cols)) = (some [none], some [some [200, 201]]) := by
   decide +kernel
 
@@ -782,26 +791,18 @@ def cube3 : LabelMatN.StN Int Int 3 :=
     taxa := { cols := [some [7, 8], some [2, 1]], grp := none },
     trait := { cols := [some [50]], grp := none } }
 
-/-
-FULL STATEMENT (false of the as-is model for the NON-mutating methods, see
-`square_nd_pure_op_drops_trait_names_counterexample` (D27)):
-  for every number `r` of square taxa axes, every shape-consistent state and every finite history of select / delete /
-  remove / reorder / sort / group / ungroup along the taxa axes or the trait axis, the final state is shape-consistent
-  and every labelled cell of it (value + the taxa label tuple of EACH of its r taxa coordinates + its trait label) is
-  a labelled cell of the initial state.
-Hypothesis of the partial theorem: the non-mutating methods (select, delete) occur only for classes whose constructor
-call passes every label array on (`pureDropsOther = false`: the repaired code, patch_D27.diff); histories of the
-mutating operations alone (remove / reorder / sort / group / ungroup — what `reorder_taxa`, `sort_taxa`, `group_taxa`
-of a three-way / four-way variance matrix do) are covered unconditionally.
--/
-
 open LabelMatN in
-/-- **Any number of taxa axes: histories of unary operations keep labels attached along EVERY taxa axis.** -/
-theorem square_nd_history_attached_partial {α lab : Type} [BEq lab] (le : lab → lab → Bool) (sch : SchN) (r : Nat)
-    (ops : List (UOp lab)) (hd : ∀ op ∈ ops, op.isPure = true → sch.pureDropsOther = false)
-    (s s' : StN α lab r) (hs : OKN s) (h : runU le sch ops s = .ok s') :
+/-- **Any number of taxa axes: histories of unary operations keep labels attached along EVERY taxa axis** (full: for every
+    number `r` of square taxa axes, every shape-consistent state and every finite history of select / delete / remove /
+    reorder / sort / group / ungroup along the taxa axes or the trait axis, the final state is shape-consistent and every
+    labelled cell of it — value + the taxa label tuple of EACH of its r taxa coordinates + its trait label — is a labelled
+    cell of the initial state).  `{}` is the class as the code is now (D27 repaired: the non-mutating methods pass every
+    label array on); before the repair the statement failed for select / delete, see
+    `square_nd_pure_op_drops_trait_names_prerepair_counterexample`. -/
+theorem square_nd_history_attached {α lab : Type} [BEq lab] (le : lab → lab → Bool) (r : Nat)
+    (ops : List (UOp lab)) (s s' : StN α lab r) (hs : OKN s) (h : runU le {} ops s = .ok s') :
     OKN s' ∧ ∀ c, IsLCellN s' c → IsLCellN s c :=
-  runU_attached le sch ops hd s s' hs h
+  runU_attached le {} ops (fun _ _ _ => rfl) s s' hs h
 
 open LabelMatN in
 example : consistentN cube3 = true := by decide +kernel
@@ -824,10 +825,10 @@ theorem square_nd_lcells_spec_iff {α lab : Type} (r : Nat) (s : StN α lab r) (
   mem_lcellsN_iff s c
 
 open LabelMatN in
-/-- **D27 on a three-way matrix.**  `select_taxa` (inherited from the taxa-only parent) returns an object without
-    trait names; the mutating `reorder_taxa` with the same indices keeps them. -/
-theorem square_nd_pure_op_drops_trait_names_counterexample :
-    ((selectN {} .taxa [1, 0] cube3).toOption.map (fun s' => s'.trait.cols),
+/-- **D27 on a three-way matrix (repaired; what the code did before).**  `select_taxa` (inherited from the taxa-only
+    parent) returned an object without trait names; the mutating `reorder_taxa` with the same indices kept them. -/
+theorem square_nd_pure_op_drops_trait_names_prerepair_counterexample :
+    ((selectN { pureDropsOther := true } .taxa [1, 0] cube3).toOption.map (fun s' => s'.trait.cols),
      (reorderN .taxa [1, 0] cube3).toOption.map (fun s' => s'.trait.cols)) = (some [none], some [some [50]]) := by
   decide +kernel
 
@@ -847,7 +848,7 @@ example : ((groupN leI .taxa cube3).toOption.map (fun s' => s'.taxa.grp))
 
 open LabelMatN in
 /-- **grouped_invariant for any number of taxa axes** (full): "reported grouped ⇒ true partition" survives every
-    history of unary operations (pure or mutating, with or without defect D27). -/
+    history of unary operations (pure or mutating; also of the pre-repair class of D27). -/
 theorem square_nd_grouped_invariant {α lab : Type} [LinearOrder lab] (sch : SchN) (r : Nat) (ops : List (UOp lab))
     (s s' : StN α lab r) (h0 : groupedN s = true)
     (h : runU (fun a b : lab => decide (a ≤ b)) sch ops s = .ok s') : groupedN s' = true :=
@@ -924,14 +925,14 @@ example : (((hstep leI schPhased 0 0 (.select .vrnt [1, 0]) heap0).bind
       (fun hp => ((hp.2[0]?).bind (view hp.1)).map (fun s => (s.mat == sPhased.mat, s.taxa.cols))))
     = some (true, [some [103, 102, 101, 100], some [1, 2, 1, 2]]) := by decide +kernel
 
-/-! ## 10. The two recorded defects: proposed repairs and what is proved of the repaired model
+/-! ## 10. The recorded square-class defect D14 (and D14b): proposed repair and what is proved of the repaired model
 
-**D27** (`DenseSquareTaxaTraitMatrix` inherits the axis-specific non-mutating methods of its single-bundle parents,
-which drop the other bundle's labels): `patch_D27.diff` adds the ten overrides that hand the other bundle's arrays to
-the new object, exactly as `DenseTaxaTraitMatrix` does.  The repaired model is the schema with `pureDropsOther = false`,
-for which the statements are the theorems above whose hypothesis is `pureDropsOther = false` / `sch.Good`
-(`square_unary_op_attached_partial`, `operand_op_attached_partial`, `history_preserves_entities_partial`,
-`mutating_eq_pure_partial`, and `square_nd_history_attached_partial` for three / four taxa axes).
+(**D27** — `DenseSquareTaxaTraitMatrix` inherited the axis-specific non-mutating methods of its single-bundle parents,
+which dropped the other bundle's labels — is repaired in /repo: ten overrides hand the other bundle's arrays to the new
+object, exactly as `DenseTaxaTraitMatrix` does.  The class is now an admissible class (`nonvacuous_schSqTrait_good`), so
+`square_unary_op_attached_partial`, `operand_op_attached_partial`, `history_preserves_entities_partial`,
+`mutating_eq_pure_partial` apply to it as to every other class — instance `square_taxa_trait_history_attached_partial`
+below — and `square_nd_history_attached` is full for three / four taxa axes.)
 
 **D14** (square `insert_taxa` / `incorp_taxa` / `concat_taxa` edit the first taxa axis only).  Cannot be repaired
 without an API decision: the present methods take a block of *rows* (q × n …), which can never yield a square result —
@@ -1031,33 +1032,36 @@ example : ((run leI schSquare (-99 : Int) true
     (fun s' => (shape3 s'.mat, consistentOK schSquare s', (s'.bundle .taxa).cols)))
     = some ((5, 5, 1), true, [some [100, 101, 102, 170, 180], some [1, 2, 1, 5, 6]]) := by decide +kernel
 
-/-- DenseSquareTaxaTraitMatrix with the overrides of `patches/C03_D27.diff`: the non-mutating methods keep every bundle -/
-def schSqTraitRepaired : Schema := { schSqTrait with pureDropsOther := false }
-
-theorem nonvacuous_schSqTT_repaired_good : schSqTraitRepaired.Good := by
+theorem nonvacuous_schSqTrait_good : schSqTrait.Good := by
   refine ⟨?_, ?_, rfl, rfl⟩
   · intro b k1 k2 h1 h2
-    cases k1 <;> cases k2 <;> simp [Schema.axes, schSqTraitRepaired, schSqTrait] at h1 h2 ⊢ <;> omega
+    cases k1 <;> cases k2 <;> simp [Schema.axes, schSqTrait] at h1 h2 ⊢ <;> omega
   · intro k
-    cases k <;> simp [Schema.axes, schSqTraitRepaired, schSqTrait]
+    cases k <;> simp [Schema.axes, schSqTrait]
 
-/-- **D27 repaired: DenseSquareTaxaTraitMatrix with the ten overrides of `patches/C03_D27.diff`** (the schema with
-    `pureDropsOther = false`) is an admissible class, so EVERY history on it — non-mutating methods included — keeps
-    labels attached (`history_preserves_entities_partial` applies; this is the instance). -/
-theorem square_taxa_trait_repaired_history_attached {α lab : Type} [BEq lab] (le : lab → lab → Bool) (fill : α)
+/-
+FULL STATEMENT (false only for the single-axis insert / incorp / concat along the square taxa bundle, D14):
+  every history of structural operations on a DenseSquareTaxaTraitMatrix keeps labels attached.
+Hypotheses of the partial theorem: those of `history_preserves_entities_partial` (`ValidHist4`: operands fit, no empty
+dimension, none of the D14 operations).
+-/
+
+/-- **DenseSquareTaxaTraitMatrix (the code as it is, D27 repaired) is an admissible class**: EVERY history on it —
+    non-mutating methods included, along the square taxa bundle and along the trait axis — keeps labels attached. -/
+theorem square_taxa_trait_history_attached_partial {α lab : Type} [BEq lab] (le : lab → lab → Bool) (fill : α)
     (ops : List (Op α lab)) (s s' : St α lab)
-    (hcons : consistentOK schSqTraitRepaired s = true)
-    (hv : ValidHist4 le schSqTraitRepaired fill true ops s)
-    (h : run le schSqTraitRepaired fill true ops s = .ok s') :
-    consistentOK schSqTraitRepaired s' = true ∧
-      ∀ c, IsLCell schSqTraitRepaired s' c →
-        IsLCell schSqTraitRepaired s c ∨
-        Sources.SourcesTail le schSqTraitRepaired fill true ops s c ∨ c.val = fill :=
-  run_attached4 le _ nonvacuous_schSqTT_repaired_good fill true ops s s' hcons hv h
+    (hcons : consistentOK schSqTrait s = true)
+    (hv : ValidHist4 le schSqTrait fill true ops s)
+    (h : run le schSqTrait fill true ops s = .ok s') :
+    consistentOK schSqTrait s' = true ∧
+      ∀ c, IsLCell schSqTrait s' c →
+        IsLCell schSqTrait s c ∨
+        Sources.SourcesTail le schSqTrait fill true ops s c ∨ c.val = fill :=
+  run_attached4 le _ nonvacuous_schSqTrait_good fill true ops s s' hcons hv h
 
-/-- the D27 witness on the repaired class: `select_taxa([1, 0])` keeps the trait names -/
-example : ((selectK schSqTraitRepaired .taxa [1, 0] sSqTrait).toOption.map (fun s' => (s'.bundle .trait).cols))
-    = some (sSqTrait.bundle .trait).cols := by decide +kernel
+example : consistentOK schSqTrait sSqTrait = true := by decide +kernel
+example : (run leI schSqTrait (-99 : Int) true [.select .taxa [1, 0], .adjoin .taxa opSqTrait, .sort .trait none]
+    sSqTrait).toOption.isSome = true := by decide +kernel
 
 /-! ## 11. Every position form of numpy.insert (boolean masks, unsorted index lists: `Model/LabelMatX.lean`)
 
@@ -1065,8 +1069,8 @@ numpy sorts unsorted positions stably and moves the values along; a boolean ndar
 forms are the sorted-list insertion of a PERMUTED operand, on the data block and on every label array alike. -/
 
 /-
-FULL STATEMENT (not proved for the square classes, whose insert / incorp are defect D14; false of the as-is model for a
-0-d ndarray position on a non-leading axis, see `insert_zero_dim_array_position_counterexample` (D17b)):
+FULL STATEMENT (not proved for the square classes, whose insert / incorp are defect D14; a 0-d ndarray position is an
+integer position since the repair of D17b, `insert_zero_dim_position_is_integer_position`):
   for every class, `insert_<k>(obj, values, …)` and `incorp_<k>(obj, values, …)` with `obj` an integer (Python int,
   numpy integer scalar or 0-d integer ndarray), a slice, an index list in any order or a boolean mask leave a state
   whose labelled cells are labelled cells of the receiver or of the operand block as it was passed.
